@@ -150,3 +150,61 @@ Proof.
   apply (exact_normal_form_unique r s z3 z4 W4 W5 V4 V5).
   rewrite Q4, Q5, Q1, Q2, Q3. apply qi_mul_add_distr.
 Qed.
+
+(* ---------- structural equality (__eq__, hence Eq) decides equality of VALUES on normalised
+   exact numbers ---------- *)
+Lemma q_eqb_true : forall p q, q_eqb p q = true -> p = q.
+Proof.
+  intros [n d] [n' d'] H. unfold q_eqb in H. cbn [Qnum Qden] in H.
+  apply andb_prop in H as [H1 H2]. apply Z.eqb_eq in H1. apply Pos.eqb_eq in H2. now subst.
+Qed.
+Lemma q_eqb_refl : forall p, q_eqb p p = true.
+Proof. intros [n d]. unfold q_eqb. cbn [Qnum Qden]. now rewrite Z.eqb_refl, Pos.eqb_refl. Qed.
+
+Lemma num_eqb_exact_eq : forall a b, num_is_exact a = true -> num_eqb a b = true -> a = b.
+Proof.
+  intros a b Ea H. destruct a; try discriminate Ea; destruct b; try discriminate H; cbn [num_eqb] in H.
+  - apply Z.eqb_eq in H. now subst.
+  - apply q_eqb_true in H. now injection H as -> ->.
+  - apply andb_prop in H as [H1 H2]. apply q_eqb_true in H1. apply q_eqb_true in H2.
+    injection H1 as -> ->. injection H2 as -> ->. reflexivity.
+Qed.
+
+Lemma num_eqb_exact_refl : forall a, num_is_exact a = true -> num_eqb a a = true.
+Proof.
+  intros a Ea. destruct a; try discriminate Ea; cbn [num_eqb].
+  - apply Z.eqb_refl.
+  - apply q_eqb_refl.
+  - now rewrite !q_eqb_refl.
+Qed.
+
+Theorem eq_decides_value_exact : forall a b x y,
+  num_wf a = true -> num_wf b = true -> valQi a = Some x -> valQi b = Some y ->
+  (num_eqb a b = true <-> qi_eq x y).
+Proof.
+  intros a b x y Wa Wb Hx Hy. split.
+  - intros H. apply (num_eqb_exact_eq a b (valQi_exact _ _ Hx)) in H. subst b.
+    rewrite Hx in Hy. injection Hy as <-. reflexivity.
+  - intros E. rewrite (exact_normal_form_unique a b x y Wa Wb Hx Hy E) in *.
+    apply num_eqb_exact_refl. exact (valQi_exact _ _ Hy).
+Qed.
+
+Lemma exact_not_NaN : forall a x, valQi a = Some x -> is_a_NaN a = false.
+Proof. intros a x H; destruct a; try discriminate H; reflexivity. Qed.
+
+(* the relational constructor Eq on two normalised exact numbers is True exactly when the
+   values agree in Q(i), and False otherwise *)
+Theorem Eq_decides_value_exact : forall a b x y,
+  num_wf a = true -> num_wf b = true -> valQi a = Some x -> valQi b = Some y ->
+  (rel_eq a b = Ok (Some true) <-> qi_eq x y) /\
+  (rel_eq a b = Ok (Some false) <-> ~ qi_eq x y).
+Proof.
+  intros a b x y Wa Wb Hx Hy. unfold rel_eq.
+  rewrite (exact_not_NaN a x Hx), (exact_not_NaN b y Hy). cbn [orb].
+  pose proof (eq_decides_value_exact a b x y Wa Wb Hx Hy) as D.
+  destruct (num_eqb a b) eqn:E; split; split; intros H; try discriminate H; try reflexivity.
+  - now apply D.
+  - exfalso. apply H. now apply D.
+  - apply D in H. discriminate H.
+  - intros Q. apply D in Q. discriminate Q.
+Qed.
